@@ -55,6 +55,8 @@ class PipeSim(object):
         self.problems = []
         self.two = two
         self.stub_ran = set()
+        self.late_cancel = set()
+        self.release_slow = False    # 'slow' processes only end once the workload is drained
         self._n_comp = len(rpu_component._components)
         base = boot.case_dir('pipe.')
         self.cdir = os.path.join(base, 'client')
@@ -216,11 +218,18 @@ class PipeSim(object):
             return
         self.tasks.extend(ts)
 
-    def cancel(self, ks):
+    def cancel(self, ks, late=False):
         if not self.tasks:
             return
         uids = sorted(set(self.tasks[k % len(self.tasks)].uid for k in ks))
         self.cancel_req.update(uids)
+        if late:
+            # the request crosses the process' own exit: the processes of the named tasks have
+            # ended, the executor's watcher has not made its next pass yet
+            for p in self.xsim.procs:
+                if p.uid in uids and p.returncode is None and not self.spec.get(p.uid, {}).get('hang'):
+                    p.returncode = self.xsim.tasks[p.uid].get('exit', 0)
+                    self.late_cancel.add(p.uid)
         self.tmgr.cancel_tasks(uids)
 
     # --------------------------------------------------------------------------
@@ -299,7 +308,9 @@ class PipeSim(object):
         for _ in range(6):
             x._round()
             for p in x.procs:
-                if p.returncode is None and not self.spec.get(p.uid, {}).get('hang'):
+                sp = self.spec.get(p.uid, {})
+                if p.returncode is None and not sp.get('hang') and \
+                        (not sp.get('slow') or self.release_slow):
                     p.returncode = x.tasks[p.uid].get('exit', 0)
         x._round()
         for pr in x.problems:
@@ -406,12 +417,13 @@ def run_pipeline(case):
                 for k in op[1]:
                     sim._poll(sim.STAGES[int(k) % len(sim.STAGES)])
             elif op[0] == 'cancel':
-                sim.cancel([int(k) for k in op[1]])
+                sim.cancel([int(k) for k in op[1]], late=bool(op[2]) if len(op) > 2 else False)
             elif op[0] == 'pump':
                 sim.pump()
             elif op[0] == 'add_pilot':
                 sim.add_pilot()
         sim.add_pilot()
+        sim.release_slow = True
         if sim.pump(case.get('order', [])):
             first = set(t.uid for t in sim.tasks)
             sim.judge(first)
